@@ -234,6 +234,7 @@ type Prover struct {
 	ranges     map[string][2]float64
 	assume     []Lin
 	nnAssume   map[string]bool // value keys assumed non-nil (contracts)
+	lenBusy    map[*ssa.Phi]bool // phis whose length is being computed (cycle guard)
 	keyMemo    map[ssa.Value]string
 	inl        int
 	cur        *Cursor
@@ -999,7 +1000,11 @@ func (pr *Prover) linRaw(v ssa.Value) Lin {
 				pr.atomRange("cap("+pr.key(x.Call.Args[0])+")", 0, math.MaxInt64)
 				return a
 			case "copy":
-				// min(len dst, len src): an atom bounded by both
+				// min(len dst, len src): exactly len(src) when the destination was made that long, else an atom
+				dl, sl := pr.lenOf(x.Call.Args[0]), pr.lenOf(x.Call.Args[1])
+				if dl.equal(sl) {
+					return sl
+				}
 				a := pr.opaque(v)
 				pr.atomRange(pr.key(v), 0, math.MaxInt64)
 				return a
@@ -1098,7 +1103,12 @@ func (pr *Prover) lenOf(x ssa.Value) Lin {
 			}
 		}
 	case *ssa.Phi:
-		if len(y.Edges) > 0 {
+		// a loop-carried slice (`data = data[n:]` in a loop) refers to itself: its length is an atom of its own
+		if pr.lenBusy == nil {
+			pr.lenBusy = map[*ssa.Phi]bool{}
+		}
+		if len(y.Edges) > 0 && !pr.lenBusy[y] {
+			pr.lenBusy[y] = true
 			first := pr.lenOf(y.Edges[0])
 			same := true
 			for _, e := range y.Edges[1:] {
@@ -1106,6 +1116,7 @@ func (pr *Prover) lenOf(x ssa.Value) Lin {
 					same = false
 				}
 			}
+			delete(pr.lenBusy, y)
 			if same {
 				return first
 			}
@@ -1442,6 +1453,13 @@ func (pr *Prover) NonNil(v ssa.Value, at *ssa.BasicBlock, depth int) bool {
 			if gl, ok := x.X.(*ssa.Global); ok && pr.p.nonNilGlobalValue(gl) {
 				return true // assigned once, in init, from fmt.Errorf / errors.New
 			}
+			// an element of a package-level array that init fills completely with functions and nothing modifies
+			// (a dispatch table `packetMakers[typ>>4]`)
+			if ia, ok := x.X.(*ssa.IndexAddr); ok {
+				if gl, ok := ia.X.(*ssa.Global); ok && pr.p.initArrayAllNonNil(gl) {
+					return true
+				}
+			}
 			if fa, ok := x.X.(*ssa.FieldAddr); ok {
 				// a function (or pointer) field of an element of a package-level table that init fills with non-nil
 				// constants in every element and nothing modifies
@@ -1757,6 +1775,12 @@ func (pr *Prover) assumeContracts() {
 				}
 				pr.payloadNN[pr.key(prm)] = true
 			}
+		}
+	}
+	// K1 for result-less buffer helpers (`putByte(data, i, b)`): the offset is non-negative
+	if isBufHelper(fn) {
+		if k := bufHelperIndex(fn); k >= 0 && k+1 < len(fn.Params) {
+			pr.assume = append(pr.assume, pr.lin(fn.Params[k+1]))
 		}
 	}
 	// K1: fill family — parameters ([]byte, int [, Ident]) result int: i >= 0
